@@ -571,7 +571,7 @@ def exhaustive_ops():
                 ops.append("rp %d %d %d" % (p, n, o))
     ops += ["cl %d 1" % E1, "cl %d 1" % F, "cl %d 0" % E1,
             "sa %d 61 78" % E1, "sa %d 31.61 78" % E1, "ra %d 61" % E1,
-            "sp %d 1" % T, "sp %d 9" % T, "dd %d 1 5" % T, "dd %d 9 1" % T, "ss %d 1 9" % T, "ss %d 1 4096" % T,
+            "sp %d 1" % T, "sp %d 9" % T, "dd %d 1 5" % T, "dd %d 9 1" % T, "dd %d 1 18446744073709551615" % T, "dr %d 1 18446744073709551615 58" % T, "ss %d 1 9" % T, "ss %d 1 4096" % T,
             "di %d 3 5a" % T,
             "nz %d" % E1, "nz %d" % D0, "ds %d -" % T, "ad %d %d" % (D0, E2), "ad %d %d" % (D0, X),
             "rnm %d %d 7a" % (D0, E2), "rnm %d %d 31.61" % (D0, E2), "im %d %d 1" % (D0, X), "im 1 %d 1" % E1]
@@ -622,7 +622,8 @@ def gen_exhaustive(maxlen, ops=None):
 NAMES_OK = ["a", "b", "c", "d", "x:y", "_1", "id"]
 NAMES_BAD = ["1a", "a b", "", "-a", "a<"]
 DATA = ["", "A", "AB", "ABC", " ", " \n", "xyzw", "hello world", "<&>", "q" * 9]
-BIG = [4095, 4096, 4097, 5000, 65536, 4294967295]
+BIG = [4095, 4096, 4097, 5000, 65536, 4294967295, 4294967296, 9223372036854775807, 9223372036854775808,
+       18446744073709551613, 18446744073709551614, 18446744073709551615]   # up to SIZE_MAX: offset+count must not wrap
 
 class Oracle:
     """the Lean reference DOM as a generation oracle (kinds / structure of the live handles)"""
